@@ -46,7 +46,9 @@ Theorem C15_src_tagged_no_globals :
   src_tagged_translated =
     ["varintTaggedLen"; "varintTaggedGetLen"; "varintTaggedPut64"; "varintTaggedPut64FixedWidth";
      "varintTaggedGet"; "varintTaggedGet64"; "varintTaggedGet64ReturnValue"; "varintTaggedGetVarint32";
-     "varintTaggedPutVarint32"; "varintTaggedAddNoGrow"; "varintTaggedAddGrow"]%string%list.
+     "varintTaggedPutVarint32"; "varintTaggedAddNoGrow"; "varintTaggedAddGrow";
+     "q_varintTaggedLenQuick"; "q_varintTaggedGetLenQuick_"; "q_varintTaggedPut64FixedWidthQuick_";
+     "q_varintTaggedGet64Quick_"]%string%list.
 Proof. exact (conj eq_refl eq_refl). Qed.
 Print Assumptions C15_src_tagged_no_globals.
 
